@@ -1,7 +1,7 @@
 (* C09: depth() is the critical-path length of the inlined circuit.
    Statements only; proofs are in Depth/Depth.v and Depth/DepthModel.v. *)
 From Coq Require Import ZArith List Bool String.
-From Verif Require Import BGate PyVal Ast State Unroll Spec Depth DepthModel DepthSpec FixProofs SpecFlat.
+From Verif Require Import BGate PyVal Ast State Unroll Spec Depth DepthModel DepthSpec FixProofs SpecFlat LoopProofs BroadcastProofs GateDefProofs.
 Import ListNotations.
 Open Scope Z_scope.
 
@@ -95,6 +95,22 @@ Theorem C09_reference_depth_and_model_counters_agree_on_flat_programs strict p :
     forall r, dof (o_state o) r = depth_after rsrc_eqb (evs_of p) r.
 Proof. exact (reference_depth_is_model_depth strict p). Qed.
 Print Assumptions C09_reference_depth_and_model_counters_agree_on_flat_programs.
+
+(* ... and for SOURCE programs that are not flat: for every program inside the whole-program judgement (Props/C01.v: gate
+   definitions and calls, modifiers, library gates, loops, whole-register operations, unsized registers) the depth counters
+   after unroll() are the recurrence over the events the judgement lists -- one event per gate application (whatever the
+   gate is lowered to), per reset, per measurement pair, and ONE event for a barrier over several qubits; so no chain of
+   those operations ending on a bit is longer than the bit's counter *)
+Theorem C09_depth_of_a_source_program_is_the_recurrence_over_its_operations fuel p q evs :
+  gjudge p = Some (q, evs) -> (ldepth p + 1 < fuel)%nat -> (gate_nesting < fuel)%nat ->
+  exists o, run_visit false false [] fuel p = Ok o /\
+            (forall r, dof (o_state o) r = depth_after rsrc_eqb evs r) /\
+            (forall r n, ChainTo evs r n -> Z.of_nat n <= dof (o_state o) r).
+Proof.
+  intros Hx Hf HN. destruct (source_programs_unroll_to_their_expansion fuel p q evs Hx Hf HN) as (o & E & _ & _ & _ & _ & D).
+  exists o. split; [exact E|]. split; [exact D|]. intros r n Hc. rewrite D. exact (depth_upper rsrc_eqb rsrc_eqb_spec evs r n Hc).
+Qed.
+Print Assumptions C09_depth_of_a_source_program_is_the_recurrence_over_its_operations.
 
 Example C09_flat_program_example :
   let q i := QIdx "q" [IdxList [IExpr (ELit (VInt i))]] in
